@@ -74,6 +74,8 @@ def in_value(o, v):
                 return False
         for k in o:
             if k not in v.items:
+                if not isinstance(k, str):
+                    return False      # the keys of a TypedDict are strings (same convention as ref/member.py)
                 if v.extra_keys is None:
                     continue
                 if not in_value(o[k], v.extra_keys):
